@@ -452,7 +452,7 @@ FAMILIES = [
     Family('priority_store', fam_store, quick=dict(n=3, flavour=PRIORITY),
            thorough=dict(n=4, flavour=PRIORITY), reach=['item-delivered'], bounds='PriorityStore'),
     Family('filter_store', fam_store, quick=dict(n=3, flavour=FILTER, caps=(1, float('inf'))),
-           thorough=dict(n=4, flavour=FILTER, caps=(1, float('inf')), _max_paths=900000, _max_wall=1200),
+           thorough=dict(n=4, flavour=FILTER, caps=(1,), _max_paths=900000, _max_wall=1200),
            reach=['item-delivered', 'blocked-filter-passed-over'], bounds='FilterStore'),
     Family('resource', fam_resource, quick=dict(n=3, flavour=FIFO), thorough=dict(n=4, flavour=FIFO),
            reach=['all-granted'], bounds='Resource'),
@@ -462,6 +462,6 @@ FAMILIES = [
     Family('priority_resource', fam_resource, quick=dict(n=3, flavour=PRIO),
            thorough=dict(n=4, flavour=PRIO), reach=['all-granted'], bounds='PriorityResource'),
     Family('preemptive_resource', fam_resource, quick=dict(n=3, flavour=PREEMPT),
-           thorough=dict(n=4, flavour=PREEMPT, _max_paths=1200000, _max_wall=1800), reach=['preemption'],
+           thorough=dict(n=4, flavour=PREEMPT, _max_paths=1200000, _max_wall=1200), reach=['preemption'],
            bounds='PreemptiveResource'),
 ]
